@@ -250,6 +250,75 @@ pub fn recover_and_check(image: &Image, dirs: &BTreeSet<PathBuf>, cands: &[Model
     Ok((fs, matched))
 }
 
+/// C06 across a crash: recover from `image`; the contents of the history's keys must equal the
+/// model after some prefix of the history - never part of a batch - right after the recovery,
+/// after each of three later writes to other keys (they advance the sequence number past whatever
+/// the recovery installed) and after a clean reopen; a snapshot taken right after the recovery
+/// keeps showing its state.
+pub fn recover_and_check_atomicity(image: &Image, dirs: &BTreeSet<PathBuf>, prefixes: &[Model], keys: &[Vec<u8>], cfg: &Cfg, prefix: &str) -> VResult<()> {
+    let fs = VerifFs::from_image(image, dirs);
+    let c = |s: &str| format!("{}.{}", prefix, s);
+    let db = DB::open(db_options(&fs, cfg)).map_err(|e| Violation::new("recover.open_fails", format!("DB::open fails on the crash image: {}", e)))?;
+    let of_history = |m: Model| -> Model { m.into_iter().filter(|(k, _)| !k.starts_with(b"probe")).collect() };
+    let is_prefix_state = |m: &Model| prefixes.iter().any(|p| p == m);
+    let show_prefixes = || prefixes.iter().map(show_model).collect::<Vec<_>>().join(" | ");
+    let s0 = of_history(read_contents(&db, keys).map_err(|v| Violation::new(&format!("recover.{}", v.clause.trim_start_matches("recover.")), v.detail))?);
+    if !is_prefix_state(&s0) {
+        drop(db);
+        return Err(Violation::new(
+            &c("recovered_state_shows_part_of_an_operation"),
+            format!("right after the recovery the contents are {}, which is the state after no prefix of the history ({})", show_model(&s0), show_prefixes()),
+        ));
+    }
+    let snap = db.get_snapshot();
+    for j in 0..3u8 {
+        if let Err(e) = db.put(WriteOptions::default(), format!("probe-{}", j).into_bytes(), b"P".to_vec()) {
+            db.release_snapshot(snap);
+            drop(db);
+            return Err(Violation::new("recover.probe_write_fails", format!("a write after recovery fails: {}", e)));
+        }
+        let s = of_history(read_contents(&db, keys).map_err(|v| Violation::new(&format!("recover.{}", v.clause.trim_start_matches("recover.")), v.detail))?);
+        if !is_prefix_state(&s) {
+            db.release_snapshot(snap);
+            drop(db);
+            return Err(Violation::new(
+                &c("batch_partially_visible_after_recovery"),
+                format!(
+                    "after the recovery the contents were {}; after {} later write(s) to other keys they are {}, which is the state after no prefix of the history ({})",
+                    show_model(&s0),
+                    j + 1,
+                    show_model(&s),
+                    show_prefixes()
+                ),
+            ));
+        }
+        // the snapshot taken before the writes still shows the recovered state
+        for k in keys {
+            let got = db_get(&db, k, Some(&snap)).ok().flatten();
+            if got.as_ref() != s0.get(k) {
+                db.release_snapshot(snap);
+                drop(db);
+                return Err(Violation::new(
+                    &c("snapshot_moved_after_recovery"),
+                    format!("a snapshot taken right after the recovery showed {} = {:?}; after {} later write(s) it shows {:?}", esc(k), s0.get(k).map(|v| show_val(v)), j + 1, got.as_ref().map(|v| show_val(v))),
+                ));
+            }
+        }
+    }
+    db.release_snapshot(snap);
+    drop(db);
+    let db = DB::open(db_options(&fs, cfg)).map_err(|e| Violation::new("recover.reopen_fails", format!("clean reopen after recovery fails: {}", e)))?;
+    let s3 = of_history(read_contents(&db, keys).map_err(|v| Violation::new(&format!("recover.{}", v.clause.trim_start_matches("recover.")), v.detail))?);
+    drop(db);
+    if !is_prefix_state(&s3) {
+        return Err(Violation::new(
+            &c("batch_partially_visible_after_recovery"),
+            format!("after recovery, three writes to other keys and a clean reopen the contents are {}, the state after no prefix of the history ({})", show_model(&s3), show_prefixes()),
+        ));
+    }
+    Ok(())
+}
+
 #[derive(Clone, Copy, Debug, PartialEq, Eq)]
 pub enum CrashMode {
     /// every prefix of the operation log
@@ -295,6 +364,11 @@ pub struct CrashSpec {
     /// with every other configuration of the history as well (options changed between the crash
     /// and the next open: log reuse switched on or off, another memtable budget, ...)
     pub cross_cfg: bool,
+    /// C06 mode: only the atomic visibility of batches is judged - the recovered contents must
+    /// be one of the states the history went through (the model after some prefix of its
+    /// operations), right after the recovery and again after each of a few later writes to other
+    /// keys and after a clean reopen. Which prefix (durability) is C02's business.
+    pub atomicity_only: bool,
 }
 
 #[derive(Clone, Debug)]
@@ -437,6 +511,12 @@ fn check_point(h: &History, rec: &Recording, spec: &CrashSpec, shm: &Shm, p: usi
     shm.add(C_CASES, 1);
     if shm.insert_state(image_hash(&image)) {
         shm.add(C_NONTRIVIAL, 1);
+    }
+    if spec.atomicity_only {
+        if let Err(v) = recover_and_check_atomicity(&image, &rec.dirs, &rec.models, &h.keys, &cfg, spec.prefix) {
+            push_found(shm, h, &v.clause, &v.detail, describe_point(rec, h, p, torn, None));
+        }
+        return;
     }
     let opts = RecoverOpts {
         check_directory: spec.check_directory,
